@@ -362,7 +362,7 @@ Definition backfill_commit (s : kstate) (p : ph) : kstate :=
       end) (cp_proofs pcp) (v_pc com, false) in
   if any then
     let com1 := with_pc com pc' in
-    let com' := bump com1 in
+    let com' := bump (with_sum com1 (sum_set_precommits (v_sum com1) (vs_pows (v_vals com1)) pc')) in
     let rs := rs_overwrite_pc (st_rounds s) (sub64 (hd_height (ph_hdr p)) 1) (cp_round pcp)
                 (map_to_sparse (vs_pkh (v_vals com)) pc') in
     set_rounds (set_com s com') rs
